@@ -42,6 +42,10 @@ def run(chk):
         return GaussianProcess(kern, jnp.asarray(x), diag=jnp.asarray(0.1)).log_probability(jnp.zeros(len(x)))
 
     jit_build = jax.jit(build)
+
+    def build_int(xi):
+        # only the construction (and with it the sortedness guard) matters here: kernel values at 1e18 are not examined
+        return GaussianProcess(kern, jnp.asarray(xi), diag=jnp.asarray(0.1)).solver.normalization()
     vecs = []
     maxlen = 5 if quick else 6
     for n in range(1, maxlen + 1):
@@ -102,6 +106,21 @@ def run(chk):
         xr = np.concatenate([base_x[1024:], base_x[:1024]])
         if raised(lambda: build(xr)) != "ValueError":
             oracle_bad.append(dict(op="eager construction on two sorted segments joined out of order", n=nbig, joined_at=nbig - 1024, expected="ValueError", observed="no error"))
+    # integer-typed coordinates of large magnitude (time stamps in nanoseconds / seconds since the epoch): an inversion of a few ticks is an
+    # inversion (the comparison is made on the integers, not on a rounded floating-point copy), and the sorted stamps are accepted
+    for dt_, base_ in ((np.int64, 1_700_000_000_000_000_000), (np.int64, 9_007_199_254_740_993), (np.int32, 1_700_000_000)):
+        stamps = (base_ + np.array([0, 3, 7, 12, 40, 41])).astype(dt_)
+        hist["integer stamps"] = hist.get("integer stamps", 0) + 1
+        if dt_ is np.int32:
+            continue      # with 64-bit types enabled int32 promotes exactly; the single-precision case is outside this harness
+        if raised(lambda: build_int(stamps)) is not None:
+            oracle_bad.append(dict(op="sorted integer time stamps rejected", x=stamps.tolist(), expected="accepted", observed="error"))
+        for ppos in (0, 2, 4):
+            sw = stamps.copy()
+            sw[ppos], sw[ppos + 1] = sw[ppos + 1], sw[ppos]
+            if raised(lambda: build_int(sw)) != "ValueError":
+                oracle_bad.append(dict(op="eager construction on integer time stamps with one adjacent inversion of a few ticks", x=sw.tolist(), inversion_at=[ppos, ppos + 1],
+                                       expected="ValueError", observed="no error"))
     # vmap over several coordinate vectors, one of them unsorted: error at execution
     Xb = jnp.asarray(np.array([[0.0, 1.0, 2.0], [0.0, 2.0, 1.0]]))
     if raised(lambda: jax.vmap(build)(Xb)) is None:
